@@ -257,22 +257,58 @@ def gen_inner(r, child):
     return text, spec
 
 
-def gen_chain(g, filters=0.0):
+def gen_chain(g, filters=0.0, roots=0.0, doc=None, small=False):
     """a document and a path of steps written as Coq's chain_path writes them: (doc, text, spec for keyc, values reached);
-    with filters > 0 some steps are existence filters [?(@ inner)] (the text is then Coq's fchain_path)"""
+    with filters > 0 some steps are existence filters [?(@ inner)] (the text is then Coq's fchain_path); with roots > 0 some
+    basic queries of a query filter look at the document: `$ steps`, `!$ steps`, `@ inner OP $ steps`"""
     r = g.r
-    doc = g.doc(3, False, 0)
+    doc = g.doc(3, False, 0) if doc is None else doc
     cur, text, spec = [doc], '$', []
     g.last_marks = []            # where every step starts in the text (C08: the text split at a step boundary)
-    for _ in range(r.randint(1, 4)):
+    for _ in range(r.randint(1, 2) if small else r.randint(1, 4)):
         g.last_marks.append(len(text))
         if filters and r.random() < filters:
             conts = [v for v in cur if v[0] in 'ao' and v[1]]
             kids = chain_children(r.choice(conts)) if conts else []
-            if r.random() < 0.3:
+            if r.random() < (0.8 if small else 0.3):
                 # a query in disjunctive form: b&&b||b..., every b an existence test, its negation or a comparison; no blanks
                 def one_bq():
                     k0 = r.random()
+                    if roots and r.random() < roots:
+                        # a `$`-rooted operand: an existence test on the document, its negation, or an ordering against the number it reaches
+                        kr = r.random()
+                        single = kr >= 0.5
+                        wantnum = single and r.random() < 0.8
+                        for _t in range(24):
+                            jt, jsp = gen_inner(r, doc)
+                            if single and not all(st[0] not in (2, 3, 4) for st in jsp):
+                                continue
+                            hit = inner_reach(jsp, [doc])
+                            if not wantnum or (len(hit) == 1 and hit[0][0] == 'n'):
+                                break
+                        else:
+                            jt, jsp = '', []
+                        hit = inner_reach(jsp, [doc])
+                        if kr < 0.3:
+                            return '$' + jt, ('re', jsp), (lambda x, hit=hit: bool(hit))
+                        if kr < 0.5:
+                            return '!$' + jt, ('rn', jsp), (lambda x, hit=hit: not hit)
+                        for _t in range(12):
+                            it, isp = gen_inner(r, r.choice(kids) if kids else None)
+                            if all(st[0] not in (2, 3, 4) for st in isp) and (_t >= 8 or any(x[0] == 'n' for k1 in kids for x in inner_reach(isp, [k1])[:1])):
+                                break
+                        else:
+                            it, isp = '', []
+                        oc = r.randrange(2, 6)
+                        fv = hit[0][1] if len(hit) == 1 and hit[0][0] == 'n' else None
+
+                        def tr(x, isp=isp, oc=oc, fv=fv):
+                            got = inner_reach(isp, [x])
+                            if fv is None or not got or got[0][0] != 'n':
+                                return False
+                            a = got[0][1]
+                            return [a == fv, a != fv, a < fv, a <= fv, a > fv, a >= fv][oc]
+                        return '@' + it + ['==', '!=', '<', '<=', '>', '>='][oc] + '$' + jt, ('cr', isp, oc, jsp), tr
                     if k0 < 0.4:
                         for _t in range(6):
                             it, isp = gen_inner(r, r.choice(kids) if kids else None)
@@ -337,7 +373,7 @@ def gen_chain(g, filters=0.0):
                     if k0 < 0.8:
                         return '@' + it, ('e', isp), (lambda x, isp=isp: bool(inner_reach(isp, [x])))
                     return '!@' + it, ('n', isp), (lambda x, isp=isp: not inner_reach(isp, [x]))
-                dnf = [[one_bq() for _ in range(r.choice([1, 2, 2, 3]))] for _ in range(r.choice([1, 1, 2, 2, 3]))]
+                dnf = [[one_bq() for _ in range(r.choice([1, 1, 2] if small else [1, 2, 2, 3]))] for _ in range(r.choice([1, 1, 2] if small else [1, 1, 2, 2, 3]))]
                 text += '[?(' + '||'.join('&&'.join(b[0] for b in conj) for conj in dnf) + ')]'
                 spec.append((10, [[b[1] for b in conj] for conj in dnf]))
                 cur = [x for v in cur for x in chain_children(v) if any(all(b[2](x) for b in conj) for conj in dnf)]
@@ -526,7 +562,11 @@ class C01(EvalProp):
         for i in range(ctx.n(600, 6000) * budget_scale):
             fl = 0.3 if r.random() < 0.4 else 0.0
             for _try in range(5 if fl else 1):
-                doc, text, spec, cur = gen_chain(g, filters=fl)
+                if fl and r.random() < 0.4:
+                    # members sharing keys, often beside scalar siblings a `$` operand can reach
+                    doc, text, spec, cur = gen_chain(g, filters=0.6, roots=0.5, doc=g.filter_doc(), small=True)
+                else:
+                    doc, text, spec, cur = gen_chain(g, filters=fl, roots=0.25 if r.random() < 0.5 else 0.0)
                 if cur or r.random() < 0.25:
                     break
             has_filter = any(st[0] in (7, 8, 9, 10) for st in spec)      # C01_filter_retrieval: the text is Coq's fchain_path
@@ -1678,12 +1718,17 @@ class C08(Prop):
         items = []
         for i in range(ctx.n(250, 2500) * budget_scale):
             for _try in range(6):
-                doc, text, spec, cur = gen_chain(g, filters=0.25)
+                doc, text, spec, cur = gen_chain(g, filters=0.25, roots=0.15)
                 if len(spec) >= 2 and (cur or r.random() < 0.2):
                     break
             if len(spec) < 2:
                 continue
-            k = r.randint(1, len(spec) - 1)
+            # the continuation Q must not look at the document root (fstep_rootfree): `$` there is the value P reached, not the document
+            rooted = [j for j, st in enumerate(spec) if st[0] == 10 and any(b[0] in ('re', 'rn', 'cr') for conj in st[1] for b in conj)]
+            lo = max(rooted) + 1 if rooted else 1
+            if lo > len(spec) - 1:
+                continue
+            k = r.randint(lo, len(spec) - 1)
             cut = g.last_marks[k]
             items.append((doc, text, spec, text[:cut], '$' + text[cut:], spec[k:]))
         whole, pre = [], []
@@ -2224,9 +2269,16 @@ class C10(Prop):
             for j in range(r.randint(1, 6)):
                 lf = r.choice(leaves)
                 ms.append(('o', [(b'a', lf), (b'u', ('n', float(j)))]) if r.random() < 0.85 else ('o', [(b'u', ('n', float(j)))]))
-            kind = r.choice('ssbnN')
+            kind = r.choice('ssbnNRR')
             ne = r.random() < 0.35
-            if kind == 's':
+            lim = None
+            if kind == 'R':
+                # an ordering against the number a `$` path reaches (bq BCR): `$.xs[?(@.a OP $.lim)]`, in both decodings
+                lim = r.choice([('N', num_sp), ('N', '7'), ('N', '2.5'), ('N', '7'), ('s', b'7'), ('z',), None, ('a', [('N', '7')])])
+                oc = r.randrange(2, 6)
+                bqspec = ('cr', [(0, [97])], oc, [(0, [108, 105, 109])])
+                same = None
+            elif kind == 's':
                 qch = r.choice("'\"")
                 cand = r.choice([num_sp, 'text', '', 'true', 'null', '7'])
                 litt, bqspec = qch + cand + qch, ('l', [(0, [97])], ne, ('s', ord(qch), [ord(ch) for ch in cand]))
@@ -2243,13 +2295,24 @@ class C10(Prop):
                 oc = 1 if ne else 0
                 litt, bqspec = num_sp, ('c', [(0, [97])], oc, [ord(ch) for ch in num_sp])
                 same = (lambda lf: lf[0] == 'N' and float(lf[1]) == float(num_sp))
-            text = '$[?(@.a%s%s)]' % ('!=' if ne else '==', litt)
             keep = []
-            for m_ in ms:
-                lf = dict(m_[1]).get(b'a')
-                eq = lf is not None and same(lf)
-                if (not eq) if ne else eq:
-                    keep.append(m_)
+            if kind == 'R':
+                text = '$.xs[?(@.a%s$.lim)]' % ['==', '!=', '<', '<=', '>', '>='][oc]
+                if lim is not None and lim[0] == 'N':
+                    fv = float(lim[1])
+                    for m_ in ms:
+                        lf = dict(m_[1]).get(b'a')
+                        if lf is not None and lf[0] == 'N':
+                            a_ = float(lf[1])
+                            if [a_ == fv, a_ != fv, a_ < fv, a_ <= fv, a_ > fv, a_ >= fv][oc]:
+                                keep.append(m_)
+            else:
+                text = '$[?(@.a%s%s)]' % ('!=' if ne else '==', litt)
+                for m_ in ms:
+                    lf = dict(m_[1]).get(b'a')
+                    eq = lf is not None and same(lf)
+                    if (not eq) if ne else eq:
+                        keep.append(m_)
 
             def dec(v, jn):
                 if v[0] == 'N':
@@ -2260,8 +2323,11 @@ class C10(Prop):
                     return ('o', [(k, dec(x, jn)) for k, x in v[1]])
                 return v
             for jn in (False, True):
-                c = Case('lt%d_%d' % (i, jn), text.encode('utf-8'), [('a', [dec(m_, jn) for m_ in ms])], meta={'family': 'coq-literal-comparison', 'nsteps': 1})
-                c.keyc = [(10, [[bqspec]])]
+                body = ('a', [dec(m_, jn) for m_ in ms])
+                if kind == 'R':
+                    body = ('o', [(b'xs', body)] + ([(b'lim', dec(lim, jn))] if lim is not None else []))
+                c = Case('lt%d_%d' % (i, jn), text.encode('utf-8'), [body], meta={'family': 'coq-literal-comparison', 'nsteps': 1})
+                c.keyc = ([(0, [120, 115])] if kind == 'R' else []) + [(10, [[bqspec]])]
                 want[c.id] = [core.doc_render(dec(m_, jn)) for m_ in keep]
                 cases.append(c)
         go, mo = both_sides(cases)
